@@ -3,7 +3,7 @@ import copy
 import numpy as np
 import gen
 import spec
-from props.common import load_impl, exc_name
+from props.common import load_impl, exc_name, rand_keys, UView
 
 RULE = ("random nested &/| trees (depth <= 3/4) over equality / conjunction / disjunction leaves (all nine operand-shape pairs occur), "
         "built with the library's own operators; truth table over ALL assignments compared with structural evaluation and with the Lean "
@@ -39,7 +39,12 @@ def run(ctx):
     for it in range(n_cases):
         n_units = rng.randint(1, 4)
         n_cands = 2 if rng.random() < 0.8 else 3
-        units = P.Units(units=n_units, candidates=n_cands)
+        keys, scheme = rand_keys(rng, n_units)
+        raw_units = P.Units(units=list(keys), candidates=n_cands) if rng.random() < 0.7 else P.Units(candidates=n_cands)
+        units = UView(raw_units, keys)
+        for kk in keys:
+            raw_units[kk]                 # lazily created units get their positions in this order
+        ctx.dist["unit_keys=" + scheme] += 1
         if it < 30:
             # all nine operand shapes, both operators
             a = gen.rand_expr_flat(rng, n_units, 2, 2, n_cands)
@@ -71,8 +76,12 @@ def run(ctx):
             impl_data = data3(e.data)
             # container read-back
             prov = P.Provenance([e, units[0] == 1])
+            n_before = len(raw_units.units)
             back = prov[0]
             back_tab = [bool(back.eval(list(a))) for a in asg]
+            if len(raw_units.units) != n_before:
+                ctx.mismatch("reading a row back changed the unit set", case, impl=[str(x) for x in raw_units.units])
+                continue
             q_tab = [bool(np.asarray(prov.query(np.array(a)))[0]) for a in asg]
         except Exception as ex:  # noqa
             err = (exc_name(ex), repr(ex))
